@@ -15,6 +15,7 @@ import (
 	"strconv"
 	"strings"
 	"sync/atomic"
+	"syscall"
 	"time"
 
 	vegeta "github.com/tsenart/vegeta/v12/lib"
@@ -444,6 +445,123 @@ func runAttackCommand(c *run.Ctx, s *kit.Summary, prefill string) {
 	ownRecords(s, in, got2, name)
 }
 
+// runAttackFlakyPipe: `vegeta attack` writing its results to stdout, stdout being a pipe that is switched
+// to O_NONBLOCK behind the process's back after it started (Go does not poll it then: a full pipe makes
+// write(2) fail with EAGAIN, possibly after a partial write), with large records (45 kB bodies against a
+// 64 KiB pipe) and a reader that is slower than the attack. Whatever the attack does about the failing
+// write, every record a decoder hands out from what reached the reader must be one of the server's
+// exchanges, whole; and if the attack exits with status 0 the stream must end on a record boundary.
+func runAttackFlakyPipe(c *run.Ctx, s *kit.Summary) {
+	if _, err := os.Stat(c.Vegeta); err != nil {
+		s.Skipped["attack-command: no vegeta binary"]++
+		return
+	}
+	body := make([]byte, 45000)
+	for i := range body {
+		body[i] = byte(i%251) + 1 // never zero, never looks like gob framing
+	}
+	var served int64
+	srv := httptest.NewServer(http.HandlerFunc(func(w http.ResponseWriter, _ *http.Request) {
+		w.Header().Set("X-Served", "1")
+		w.Write(body)
+		atomic.AddInt64(&served, 1)
+	}))
+	defer srv.Close()
+	var fds [2]int
+	if err := syscall.Pipe(fds[:]); err != nil { // a raw pipe: blocking when the child starts
+		s.Skipped["attack-command: no pipe"]++
+		return
+	}
+	rd := os.NewFile(uintptr(fds[0]), "results-reader")
+	wr := os.NewFile(uintptr(fds[1]), "results-writer")
+	defer rd.Close()
+	name := "this-run-pipe"
+	target := srv.URL + "/"
+	cmd := exec.Command(c.Vegeta, "attack", "-name", name, "-rate=50/s", "-duration=3s", "-max-body=-1", "-output", "stdout")
+	cmd.Env = append(os.Environ(), "VEGETA_VERIF_DRIVER=")
+	cmd.Stdin = strings.NewReader("GET " + target + "\n")
+	cmd.Stdout = wr
+	var stderr bytes.Buffer
+	cmd.Stderr = &stderr
+	if err := cmd.Start(); err != nil {
+		wr.Close()
+		s.Skipped["attack-command: cannot start"]++
+		return
+	}
+	deadline := time.Now().Add(8 * time.Second)
+	for atomic.LoadInt64(&served) < 1 && time.Now().Before(deadline) {
+		time.Sleep(5 * time.Millisecond)
+	}
+	// the same open file description as the child's stdout: its writes become non-blocking from now on
+	nbErr := syscall.SetNonblock(fds[1], true)
+	wr.Close()
+	waited := make(chan error, 1)
+	go func() { waited <- cmd.Wait() }()
+	time.Sleep(400 * time.Millisecond) // the pipe fills up
+	var stream bytes.Buffer
+	buf := make([]byte, 64<<10)
+	readDone := make(chan struct{})
+	go func() {
+		defer close(readDone)
+		for {
+			time.Sleep(50 * time.Millisecond) // slower than the attack writes
+			n, err := rd.Read(buf)
+			stream.Write(buf[:n])
+			if err != nil {
+				return
+			}
+		}
+	}()
+	var exitErr error
+	select {
+	case exitErr = <-waited:
+	case <-time.After(40 * time.Second):
+		cmd.Process.Kill()
+		exitErr = <-waited
+		<-readDone
+		s.Skipped["attack-command: pipe run did not finish"]++
+		return
+	}
+	<-readDone
+	if nbErr != nil || atomic.LoadInt64(&served) < 1 {
+		s.Skipped["attack-command: pipe run not set up"]++
+		return
+	}
+	got, term := decodePrefix(gobCodec(), stream.Bytes())
+	eagain := strings.Contains(stderr.String(), "temporarily unavailable")
+	s.Case("attack-command:nonblocking-pipe", true)
+	s.Count(fmt.Sprintf("attack-command:nonblocking-pipe exit0=%v eagain-reported=%v", exitErr == nil, eagain))
+	in := map[string]interface{}{"command": "vegeta attack -name " + name + " -rate=50/s -duration=3s -output stdout; stdout = pipe switched to O_NONBLOCK after start, 45000-byte bodies, slow reader",
+		"exchanges_served": atomic.LoadInt64(&served), "bytes_read": stream.Len(), "attack_exit": fmt.Sprint(exitErr), "attack_stderr": strings.TrimSpace(stderr.String())}
+	key := map[string]interface{}{"codec": "gob"}
+	seen := map[uint64]bool{}
+	for i := range got {
+		x := &got[i]
+		genuine := x.Attack == name && x.Method == "GET" && x.URL == target && !seen[x.Seq] && x.Seq < uint64(atomic.LoadInt64(&served))+1000
+		if genuine && x.Error == "" {
+			genuine = x.Code == 200 && x.BytesIn == uint64(len(body)) && bytes.Equal(x.Body, body) && x.Headers.Get("X-Served") == "1"
+		}
+		if !genuine {
+			y := *x
+			if len(y.Body) > 64 {
+				y.Body = y.Body[:64]
+			}
+			s.Violate(kit.Violation{Kind: "prefix_extra_record", What: "a decoder reading the attack's output hands out a record that was never written (torn or spliced message)", Input: in,
+				Expected: "only whole records of this attack's exchanges", Observed: fmt.Sprintf("record %d of %d (body %d bytes, first 64 shown): %s", i, len(got), len(x.Body), gen.ResultLine(&y)), Key: key})
+			return
+		}
+		seen[x.Seq] = true
+	}
+	if int64(len(got)) > atomic.LoadInt64(&served) {
+		s.Violate(kit.Violation{Kind: "prefix_extra_record", What: "more records decode from the attack's output than exchanges took place", Input: in, Observed: fmt.Sprintf("%d records", len(got)), Key: key})
+		return
+	}
+	if exitErr == nil && (term != "eof" || len(got) < 1) {
+		s.Violate(kit.Violation{Kind: "encode_not_whole_record", What: "the attack reported success, yet its output does not decode to whole records followed by end-of-stream", Input: in,
+			Expected: "records then eof", Observed: fmt.Sprintf("%d records then %s", len(got), term), Key: key})
+	}
+}
+
 // runAttackComplete: a short attack that runs to its end onto an -output path that already holds something.
 // The file must then be exactly this run's stream: only its records, then end-of-stream.
 func runAttackComplete(c *run.Ctx, s *kit.Summary, prefill string) {
@@ -775,6 +893,7 @@ func runC09(c *run.Ctx, s *kit.Summary) {
 	for i := 0; i < c.N(1, 3); i++ {
 		runAttackCommand(c, s, []string{"old-results", "none", "junk"}[(i+int(c.Seed))%3])
 	}
+	runAttackFlakyPipe(c, s)
 	runAttackComplete(c, s, "old-results")
 	runAttackComplete(c, s, "junk")
 	runEncodeOverwrite(c, r, s, c.N(24, 300))
